@@ -11,12 +11,13 @@ Families == <<
      P("kilo", "Meters"), P("milli", "Meters"), P("centi", "Meters"),
      S("Meters", <<BP(4, -7, 1), BP(6, 1, 1)>>), S("Feet", <<BP(6, -1, 1)>>), S("Inches", <<BP(4, 2, 1)>>),
      S("Meters", <<BP(4, 40, 1), BP(6, -1, 1)>>), S("Meters", <<BP(6, -1, 1), BP(10, -2, 1), BP(22, -1, 1), BP(34, -1, 1), BP(62, -1, 1), BP(82, -1, 1), BP(123362, -1, 1)>>),
-     S("Meters", <<BP(7, 1, 1)>>), S("Inches", <<BP(4, 1, 2)>>), S("Feet", <<BP(6, 1, 1)>>), S("Inches", <<BP(4, 2, 1), BP(6, 2, 1)>>) >>,   \* [3 ft] and [36 in]: anonymous twins of Yards
+     S("Meters", <<BP(7, 1, 1)>>), S("Inches", <<BP(4, 1, 2)>>), S("Feet", <<BP(6, 1, 1)>>), S("Inches", <<BP(4, 2, 1), BP(6, 2, 1)>>),
+     S("Feet", <<BP(6, 2, 1)>>), S("Yards", <<BP(6, 1, 1)>>), S("Feet", <<BP(4, 3, 1)>>), S("Inches", <<BP(4, 5, 1), BP(6, 1, 1)>>) >>,   \* 9 ft and 3 yd; 8 ft and 96 in: equal sizes, factors differing in an exponent   \* [3 ft] and [36 in]: anonymous twins of Yards
   << U("Seconds"), U("Minutes"), U("Hours"), U("Days"), P("milli", "Seconds"), P("micro", "Seconds"), P("nano", "Seconds"), P("kilo", "Seconds"),
      S("Seconds", <<BP(4, -4, 1), BP(6, -1, 1), BP(10, -4, 1), BP(14, 1, 1), BP(22, 1, 1), BP(26, 1, 1)>>) >>,
   << U("Radians"), U("Degrees"), U("Revolutions"), U("Arcminutes"), U("Arcseconds"), P("milli", "Radians"), S("Degrees", <<BP(4, -1, 1)>>),
      S("Revolutions", <<BP(14, -1, 1)>>), S("Degrees", <<BP(4, 1, 1), BP(22, -1, 1)>>), S("Radians", <<BP(6, 1, 1), BP(7, 1, 1), BP(10, -1, 1)>>) >>,   \* rev/7, 2deg/11, (3pi/5) rad: rational, non-integer ratios among pi-carrying units
-  << U("Bits"), U("Bytes"), P("kibi", "Bytes"), P("kilo", "Bits"), P("mebi", "Bits"), S("Bytes", <<BP(6, 1, 1)>>) >>,
+  << U("Bits"), U("Bytes"), P("kibi", "Bytes"), P("kilo", "Bits"), P("mebi", "Bits"), S("Bytes", <<BP(6, 1, 1)>>), S("Bits", <<BP(4, 4, 1)>>), S("Bytes", <<BP(4, 1, 1)>>) >>,
   << U("Grams"), U("PoundsMass"), U("Slugs"), P("kilo", "Grams"), P("milli", "Grams"), S("PoundsMass", <<BP(4, -4, 1)>>) >>,
   << U("Kelvins"), U("Celsius"), U("Fahrenheit"), P("milli", "Kelvins"), P("centi", "Celsius"), S("Kelvins", <<BP(4, -1, 1)>>) >> >>
 Tier == IF "TIER" \in DOMAIN IOEnv THEN IOEnv.TIER ELSE "quick"
